@@ -410,6 +410,24 @@ func showNodes(ns []*benchproc.KeyHeaderNode) string {
 
 var khValues = []string{"a", "b", "", "é", "a b", "c"}
 
+// values a "@num" order cannot tell apart: 1000/1k, 1/1.0, go1.2/go1.20 (fuzzy number parser),
+// two non-numeric values
+var numTies = []string{"1000", "1k", "1", "1.0", "go1.2", "go1.20", "x", "y", "2"}
+
+// khNum marks which fields of the next runKh/hdr projection are ordered "@num" (non-injective)
+var khNum []bool
+
+func projNames(names []string) string {
+	out := make([]string, len(names))
+	for i, n := range names {
+		out[i] = n
+		if i < len(khNum) && khNum[i] {
+			out[i] += "@num"
+		}
+	}
+	return strings.Join(out, ",")
+}
+
 func runKh(vals [][]string, nf int, tag string) {
 	defer func() {
 		if e := recover(); e != nil {
@@ -419,7 +437,7 @@ func runKh(vals [][]string, nf int, tag string) {
 	}()
 	names := []string{"f0", "f1", "f2", "f3"}[:nf]
 	var pp benchproc.ProjectionParser
-	proj, err := pp.Parse(strings.Join(names, ","), nil)
+	proj, err := pp.Parse(projNames(names), nil)
 	if err != nil {
 		panic(err)
 	}
@@ -473,6 +491,12 @@ func khCases(r *hx.Rand) {
 	runKh([][]string{{"a"}, {"b"}, {"a"}}, 1, "repeat")
 	runKh([][]string{{"a", "x"}, {"b", "x"}, {"b", "x"}, {"a", "x"}}, 2, "multi+repeat+samechild")
 	runKh(nil, 0, "trivial")
+	// C16-I witnesses: distinct values that tie under the field's order stay separate header cells
+	khNum = []bool{true}
+	runKh([][]string{{"1000"}, {"1k"}, {"1"}, {"1.0"}}, 1, "keys+numtie")
+	khNum = []bool{true, false}
+	runKh([][]string{{"x", "a"}, {"y", "a"}, {"go1.2", "b"}, {"go1.20", "b"}}, 2, "keys+multi+numtie")
+	khNum = nil
 	n := hx.N(800, 30000)
 	for i := 0; i < n; i++ {
 		nf := r.Intn(5)
@@ -483,10 +507,20 @@ func khCases(r *hx.Rand) {
 		alpha := 1 + r.Intn(4)
 		vals := make([][]string, nk)
 		tags := map[string]bool{}
+		khNum = make([]bool, nf)
+		for b := range khNum {
+			khNum[b] = r.Chance(1, 4)
+			if khNum[b] {
+				tags["numtie"] = true
+			}
+		}
 		for a := range vals {
 			vals[a] = make([]string, nf)
 			for b := range vals[a] {
 				vals[a][b] = khValues[r.Intn(alpha)]
+				if khNum[b] {
+					vals[a][b] = numTies[r.Intn(2+2*alpha)%len(numTies)]
+				}
 			}
 			if a > 0 && r.Chance(1, 3) { // long common prefixes
 				copy(vals[a], vals[a-1][:r.Intn(nf+1)])
@@ -506,7 +540,7 @@ func khCases(r *hx.Rand) {
 			tags["keys"] = true
 		}
 		var tl []string
-		for _, k := range []string{"keys", "multi", "repeat"} {
+		for _, k := range []string{"keys", "multi", "repeat", "numtie"} {
 			if tags[k] {
 				tl = append(tl, k)
 			}
@@ -517,6 +551,7 @@ func khCases(r *hx.Rand) {
 		}
 		runKh(vals, nf, tag)
 	}
+	khNum = nil
 }
 
 // ---------------------------------------------------------------- benchstat text vs CSV
@@ -766,6 +801,12 @@ func treeScenario(r *hx.Rand, dir string) scenario {
 	depth := 2 + r.Intn(3)
 	nameKeys := []string{"a", "b", "c", "d"}[:depth]
 	cfgLead := r.Chance(1, 4) // the top level is a file-config key "cfg" instead of /a
+	numLevel := -1            // one level ordered "@num" with values the order cannot tell apart
+	if r.Chance(1, 3) {
+		numLevel = r.Intn(depth)
+		tags["numtie"] = true
+	}
+	tiePool := [][]string{{"1000", "1k", "2", "1"}, {"1", "1.0", "3", "2"}, {"go1.2", "go1.20", "go1.3", "7"}, {"x", "y", "1", "z"}}[r.Intn(4)]
 	// leaves of a random unbalanced tree, at most 9
 	var leaves [][]string
 	var rec func(prefix []string, level int)
@@ -780,7 +821,9 @@ func treeScenario(r *hx.Rand, dir string) scenario {
 		}
 		for i := 0; i < k && len(leaves) < 9; i++ {
 			v := fmt.Sprintf("%s%d", strings.ToUpper(nameKeys[level]), i+1)
-			if r.Chance(1, 8) {
+			if level == numLevel {
+				v = tiePool[i%4]
+			} else if r.Chance(1, 8) {
 				v = fmt.Sprintf("%s%d", strings.ToUpper(nameKeys[level]), 1+r.Intn(2)) // repeats under different parents
 			}
 			rec(append(prefix, v), level+1)
@@ -827,11 +870,14 @@ func treeScenario(r *hx.Rand, dir string) scenario {
 	paths := []string{p}
 	var cols []string
 	for i, k := range nameKeys {
+		c := "/" + k
 		if i == 0 && cfgLead {
-			cols = append(cols, "cfg")
-		} else {
-			cols = append(cols, "/"+k)
+			c = "cfg"
 		}
+		if i == numLevel {
+			c += "@num"
+		}
+		cols = append(cols, c)
 	}
 	if r.Chance(1, 5) && depth < 4 {
 		// a second file with the same benchmarks: .file as the innermost level
@@ -865,7 +911,7 @@ func tagList(tags map[string]bool, order []string) string {
 	return strings.Join(tl, "+")
 }
 
-var e2eTags = []string{"zero", "compare", "nodelta", "missing", "tables", "levels2", "levels3", "levels4", "levels5", "multirow", "units", "warn"}
+var e2eTags = []string{"numtie", "zero", "compare", "nodelta", "missing", "tables", "levels2", "levels3", "levels4", "levels5", "multirow", "units", "warn"}
 
 func runScenario(sc scenario) {
 	myid := id
@@ -945,7 +991,7 @@ func hdrCases(r *hx.Rand) {
 	run := func(vals [][]string, nf int, unit string, tag string) {
 		names := []string{"f0", "f1", "f2", "f3", "f4"}[:nf]
 		var pp benchproc.ProjectionParser
-		proj, err := pp.Parse(strings.Join(names, ","), nil)
+		proj, err := pp.Parse(projNames(names), nil)
 		if err != nil {
 			panic(err)
 		}
@@ -966,24 +1012,40 @@ func hdrCases(r *hx.Rand) {
 	}
 	run([][]string{{"A1", "B1", "C1"}, {"A1", "B1", "C2"}, {"A1", "B2", "C3"}}, 3, "sec/op", "levels3+unbalanced")
 	run([][]string{{"a"}, {"b"}, {"a"}}, 1, "B/op", "repeat")
+	khNum = []bool{true, false}
+	run([][]string{{"1000", "p"}, {"1k", "p"}, {"1", "q"}, {"1.0", "q"}}, 2, "sec/op", "levels2+numtie")
+	khNum = nil
 	n := hx.N(500, 10000)
 	for i := 0; i < n; i++ {
 		nf := 1 + r.Intn(5)
 		nk := 1 + r.Intn(9)
 		alpha := 1 + r.Intn(4)
 		vals := make([][]string, nk)
+		khNum = make([]bool, nf)
+		numtie := false
+		for b := range khNum {
+			khNum[b] = r.Chance(1, 4)
+			numtie = numtie || khNum[b]
+		}
 		for a := range vals {
 			vals[a] = make([]string, nf)
 			for b := range vals[a] {
 				vals[a][b] = []string{"a", "bb", "", "é", "long value", "c"}[r.Intn(alpha)]
+				if b < len(khNum) && khNum[b] {
+					vals[a][b] = numTies[r.Intn(2+2*alpha)%len(numTies)]
+				}
 			}
 			if a > 0 && r.Chance(2, 3) { // long common prefixes: deep unbalanced trees
 				copy(vals[a], vals[a-1][:r.Intn(nf+1)])
 			}
 		}
 		tag := fmt.Sprintf("levels%d", nf)
+		if numtie {
+			tag += "+numtie"
+		}
 		run(vals, nf, hx.Pick(r, []string{"sec/op", "B/op", "x", ""}), tag)
 	}
+	khNum = nil
 }
 
 func main() {
